@@ -17,6 +17,9 @@ def main():
     ap.add_argument("--replay")
     ap.add_argument("--only", help="substring filter on scenario keys (debugging)")
     a = ap.parse_args()
+    import logging
+
+    logging.disable(logging.CRITICAL)
     prop = a.prop.upper()
     t0 = time.time()
     os.environ.setdefault("HOME_ORIG", os.environ.get("HOME", ""))
